@@ -114,6 +114,10 @@ func (t *XMPPTransport) StartTLS() error {
 }
 
 func (t *XMPPTransport) Ping() error {
+	if t.conn == nil {
+		// No connection (a dial that failed leaves none): a keepalive that fires now must not crash the process
+		return errors.New("cannot ping: not connected")
+	}
 	n, err := t.conn.Write([]byte("\n"))
 	if err != nil {
 		return err
